@@ -13,6 +13,7 @@ from __future__ import annotations
 
 import ast
 
+from ..fold import try_fold
 from ..model import AnalysisError, Repo, dotted, is_name, norm, walk_shallow
 from ..report import Ledger
 from ..sym import Const, Lin, State, Str, Sym, SymExec, Tup, as_lin, NotNumeric
@@ -447,6 +448,26 @@ def _r5(repo, L):
     cli = repo.try_func("cli", "pretext_to_asm")
     if wy is None or cli is None:
         raise AnalysisError("anchors pretext_to_asm.write_info_yaml / cli vanished")
+    # the totals over all output assemblies are written whenever there is more than one assembly
+    tot_ifs = [x for x in walk_shallow(wy.node) if isinstance(x, ast.If) and any(isinstance(b_, ast.Assign) and "manual_breaks" in norm(b_) for b_ in x.body)]
+    if len(tot_ifs) == 1 and isinstance(tot_ifs[0].test, ast.Compare) and len(tot_ifs[0].test.ops) == 1:
+        t_ = tot_ifs[0].test
+        l_, r_, op_ = t_.left, t_.comparators[0], t_.ops[0]
+        is_len = lambda e: isinstance(e, ast.Call) and dotted(e.func) == "len"  # noqa: E731
+        k_l, k_r = try_fold(l_, default=None), try_fold(r_, default=None)
+        least = None  # smallest count for which the block is written, when the test means "count >= least"
+        if is_len(l_) and isinstance(k_r, int):
+            least = {ast.Gt: k_r + 1, ast.GtE: k_r}.get(type(op_))
+            exact = k_r if isinstance(op_, ast.Eq) else None
+        elif is_len(r_) and isinstance(k_l, int):
+            least = {ast.Lt: k_l + 1, ast.LtE: k_l}.get(type(op_))
+            exact = k_l if isinstance(op_, ast.Eq) else None
+        else:
+            exact = None
+        if least is not None:
+            L.check(least == 2, "R5", wy.short + ":totals", "totals written for two or more output assemblies", f"the totals of manual breaks and joins are written only for {least} or more assemblies", wy.loc(tot_ifs[0]))
+        elif exact is not None:
+            L.fail("R5", wy.short + ":totals", f"the totals of manual breaks and joins are written only when there are exactly {exact} output assemblies: a map of three haplotypes has its per-assembly numbers but no totals in the info YAML", wy.loc(tot_ifs[0]), witness={"assemblies": exact + 1})
     # the tag constant used by the labeller
     namer = repo.cls("ScaffoldNamer")
     label = namer.methods["label_scaffold"]
